@@ -510,6 +510,9 @@ func (r *rt) runGroup(g Group, from int, skip map[int]bool, only []int, wantSamp
 		default:
 			r.execTemplate(dc, acc, wantSample)
 		}
+		// leave the case before anything is reported, so that the worker can never attribute a limit to a
+		// case whose report it already holds
+		pub(-1)
 		parted++
 		n++
 		if n%16 == 0 && time.Since(last) > 100*time.Millisecond {
